@@ -2,6 +2,8 @@
 tokio-util; these checks exercise the real dependencies through the hooks at the points the contracts talk about.
 They are reported under coverage.extra_checks, never counted as obligations.  A failure carries a concrete input that was
 run on the real code, so it is reported as a violation of the clause it instantiates (with that input as the replay)."""
+import os
+import re
 import struct
 
 import replaylib
@@ -514,6 +516,77 @@ def claimed_name_grid(env):
     return dict(name='claimed_name_grid', validates='the listener side on the real crate against a dialer that is not anemo: 24 combinations of claimed name x certificate name x listener configuration; admitted (acknowledged and listed) exactly when the claimed name is one the listener accepts AND the certificate is valid for a name the listener accepts',
                 cases=len(cells), failed=fails, ok=not fails, props=['C14'],
                 clause='a dialer is admitted only if the network name it claims is one the listener accepts and its certificate is valid for an accepted name; a peer that claims one network\'s name while presenting a certificate issued for another network is rejected')
+
+
+def stolen_certificate(env):
+    """C01 / C03 against peers that are not anemo (bare quinn / rustls, no hook): somebody shows a certificate whose private key they do not
+    hold -- to an anemo listener, and as a listener to an anemo dialer (with and without a named identity) -- before and after the rightful
+    holder of the key connected under the same certificate"""
+    got = _run('stolen_certificate', {}, env, timeout=240)
+    fails = []
+    if got.get('panicked'):
+        fails.append(dict(scenario='stolen_certificate', args={}, expected=dict(note='no panic'), observed=got))
+    inbound, outbound = got.get('inbound') or [], got.get('outbound') or []
+    for i, c in enumerate(inbound):
+        want = c['holds_the_private_key']
+        if c['acknowledged'] != want or c['listed'] != want:
+            fails.append(dict(scenario='stolen_certificate', args=dict(direction='inbound', history=[x['who'] for x in inbound[:i + 1]]),
+                              expected=dict(acknowledged=want, listed=want, note='the presenter of a certificate is admitted under its key only with a handshake signature made by that key'), observed=c))
+    for i, c in enumerate(outbound):
+        want = c['holds_the_private_key']
+        if c['connect_ok'] != want or c['listed'] != want or (want and c['attributed_first_byte'] != c['victim_first_byte']):
+            fails.append(dict(scenario='stolen_certificate', args=dict(direction='outbound', dial_names_the_identity=c['dial_names_the_identity'], history=[x['who'] for x in outbound[:i + 1]]),
+                              expected=dict(connect_ok=want, listed=want), observed=c))
+    if not fails and (len(inbound) != 5 or len(outbound) != 8):
+        raise Undecided('stolen_certificate scenario reported %d + %d steps' % (len(inbound), len(outbound)))
+    return dict(name='stolen_certificate', validates='real handshakes (rustls checks the CertificateVerify message through the verifier anemo installs): 5 inbound and 8 outbound attempts under one certificate, by its holder and by parties signing with other keys, in one process',
+                cases=len(inbound) + len(outbound), failed=fails, ok=not fails, props=['C01', 'C03'],
+                clause='the identity attributed to a connection is the key whose private half signed THIS handshake; showing a certificate (which is public) proves nothing, whether or not its holder connected before')
+
+
+def _declared_header_names(repo):
+    """every short lower-case `&str` constant the library declares (crates/anemo/src): read from the source on every run"""
+    names = []
+    root = os.path.join(repo, 'crates', 'anemo', 'src')
+    for dp, _dn, fns in os.walk(root):
+        for fn in fns:
+            if fn.endswith('.rs'):
+                try:
+                    txt = open(os.path.join(dp, fn)).read()
+                except OSError:
+                    continue
+                for m in re.finditer(r'const\s+\w+\s*:\s*&(?:\'static\s+)?str\s*=\s*"([a-z0-9][a-z0-9_.-]{1,40})"\s*;', txt):
+                    if m.group(1) not in names:
+                        names.append(m.group(1))
+    return names
+
+
+def identity_claims_in_headers(env):
+    """C01 on real networks: every header name the library declares (plus a few guessable ones), filled with ANOTHER peer's identity in seven
+    spellings, on error and success replies of a lying replier (typed client -> Status::peer_id / Response::peer_id, untyped Network::rpc) and on
+    requests of a raw dialer (handler's Request::peer_id)"""
+    names = _declared_header_names(env['repo'])
+    for g in ('peer-id', 'peer_id', 'peerid', 'origin', 'from', 'sender', 'source', 'x-peer-id', 'x-forwarded-for', 'forwarded', 'via', 'authority', 'identity', 'public-key'):
+        if g not in names:
+            names.append(g)
+    got = _run('identity_claims_in_headers', dict(names=names), env, timeout=240)
+    fails = []
+    if got.get('panicked'):
+        fails.append(dict(scenario='identity_claims_in_headers', args=dict(names=names), expected=dict(note='no panic'), observed=got))
+    replies, requests = got.get('replies') or [], got.get('requests') or []
+    for c in replies:
+        if not (c['typed_names_replier'] and c['untyped_names_replier']) and len(fails) < 4:
+            fails.append(dict(scenario='identity_claims_in_headers', args=dict(names=names, reply_status=c['status'], every_named_header_set_to=c['claim']),
+                              expected=dict(typed_names_replier=True, untyped_names_replier=True, note='the PeerId on a reply is the authenticated key of the connection it arrived on'), observed=c))
+    for c in requests:
+        if not c['handler_saw_the_dialer'] and len(fails) < 6:
+            fails.append(dict(scenario='identity_claims_in_headers', args=dict(names=[n for n in names if n != 'timeout'], request_headers_all_set_to=c['claim']),
+                              expected=dict(handler_saw_the_dialer=True), observed=c))
+    if not fails and (len(replies) != 35 or len(requests) != 7):
+        raise Undecided('identity_claims_in_headers scenario reported %d replies, %d requests' % (len(replies), len(requests)))
+    return dict(name='identity_claims_in_headers', validates='the typed RPC client, Network::rpc and the inbound handler on real networks: %d header names (declared by the library or guessable) x 7 spellings of another peer\'s identity x 5 reply statuses, and 7 requests from a raw dialer' % len(names),
+                cases=len(replies) + len(requests), failed=fails, ok=not fails, props=['C01'],
+                clause='the PeerId a handler sees on a request and a caller sees on a response (or on the error status made from it) cannot be supplied or influenced by anything carried in the message')
 
 
 def auth_scenarios(env):
